@@ -119,7 +119,7 @@ func quote(d dgram, v6 bool) []byte {
 		if d.Q == "truncl4" {
 			b = b[:len(b)-len(pay)-4] // half of the UDP header is missing
 		}
-	case "echoreq", "trreq", "echorep", "err":
+	case "echoreq", "trreq", "echorep", "trrep", "err":
 		sc.NextHdr = slayers.L4SCMP
 		var tc slayers.SCMPTypeCode
 		var msg gopacket.SerializableLayer
@@ -130,6 +130,8 @@ func quote(d dgram, v6 bool) []byte {
 			tc, msg = slayers.CreateSCMPTypeCode(slayers.SCMPTypeEchoReply, 0), &slayers.SCMPEcho{Identifier: uint16(d.Qp), SeqNumber: 3}
 		case "trreq":
 			tc, msg = slayers.CreateSCMPTypeCode(slayers.SCMPTypeTracerouteRequest, 0), &slayers.SCMPTraceroute{Identifier: uint16(d.Qp), Sequence: 3}
+		case "trrep":
+			tc, msg = slayers.CreateSCMPTypeCode(slayers.SCMPTypeTracerouteReply, 0), &slayers.SCMPTraceroute{Identifier: uint16(d.Qp), Sequence: 3, IA: remoteIA, Interface: 7}
 		default:
 			tc, msg = slayers.CreateSCMPTypeCode(slayers.SCMPTypeDestinationUnreachable, 1), &slayers.SCMPDestinationUnreachable{}
 		}
